@@ -307,4 +307,25 @@ CHECKS["C04"] = {
     ],
 }
 
+CHECKS["C02"] = {
+    "pkg": "./checks/c02",
+    "level": "exploration",
+    "rule": "per case a real chain (2..4 deputies, funding block, 0..3 honest prefix blocks without confirms so forks stay possible), a valid next block X (0..4 generated transactions) on the head or on an older block, "
+            "then 1..2 corruptions out of 25 (parent -> unknown / grandparent; miner -> other deputy / outsider; version, tx, log root bit flips; height +-1 / 0 / max; gas limit; gas used +-1; time before the parent / now+2..1000 / later; "
+            "signature bit flip / truncation; junk deputy root; extra 1 / 256 / 257 / 1000 bytes; tx dropped / added (valid, expired, too far ahead, other chain, replay of the branch) / duplicated / reordered / gasUsed altered, with or without matching tx root; "
+            "change logs dropped; junk confirms; junk deputy nodes) and re-signing by nobody / the original miner / the deputy in turn for the block's time (optionally adopting his miner address) / another deputy / an outsider. "
+            "Oracle if the node stores the mutant: parent known, height = parent+1, parent.time <= time <= now+1, |extra| <= 256, the recovered signer is the deputy the slot model puts in turn and the miner address is his, every transaction inside its window, "
+            "for this chain and not on the branch or twice, and an honest assembly of (parent, the mutant's own header choices, its transaction list) reproduces the hash. Oracle if it is rejected or ignored: current, stable, HasBlock over all known hashes, "
+            "the unconfirmed set, the full account dump at the head and the pool are unchanged. Sanity: X itself is accepted afterwards. non-trivial = a hashed field or the transaction list differs from X; distinct by description digest. "
+            "term-change: the same on chains with 8-block terms, 1..3 genesis deputies, configured deputy count 2..5 and candidate registrations, with a prefix of 8..11 blocks so that X is the first block of the new term (whose deputy count usually differs) or a neighbour, in any slot.",
+    "level_text": "Mutation-based generated blocks against reference models for every acceptance condition plus a before/after comparison of node state for rejections; exploration over 25 corruptions x 5 signing modes x generated chains.",
+    "level_note": "Trusted: the slot model, the honest assembly as reference execution, the snapshot of node state (public API only). Gas limit and the deputy root outside snapshot heights are the miner's free choices (the statement does not constrain them).",
+    "technique": "rapid mutation-based generation with reference-model and side-effect oracles",
+    "assumptions": ["the validator reads the wall clock only for the not-in-the-future test; chain times are anchored in the past"],
+    "units": [
+        {"name": "acceptance", "test": "TestC02Acceptance", "quick": {"checks": 350, "shards": 4, "timeout": 900}, "thorough": {"checks": 5000, "shards": 12, "timeout": 3400}},
+        {"name": "term-change", "test": "TestC02TermChange", "quick": {"checks": 60, "shards": 4, "timeout": 900}, "thorough": {"checks": 1000, "shards": 12, "timeout": 3400}},
+    ],
+}
+
 NOT_APPLICABLE = {}
